@@ -13,3 +13,19 @@ func VerifParseUDPHeader(data []byte) (string, int, []byte, error) {
 func VerifBuildUDPHeader(host string, port int, payload []byte) []byte {
 	return (&UDPRelay{}).buildUDPHeader(host, port, payload)
 }
+
+// VerifRelay returns a relay value that is kept across calls (the real code calls parseUDPHeader / buildUDPHeader
+// on one long-lived *UDPRelay from many goroutines), without sockets or background goroutines.
+func VerifRelay() *UDPRelay {
+	return &UDPRelay{sessions: make(map[string]*udpSession)}
+}
+
+// VerifParse calls the real parseUDPHeader on this relay; nothing is copied.
+func (r *UDPRelay) VerifParse(data []byte) (string, int, []byte, error) {
+	return r.parseUDPHeader(data)
+}
+
+// VerifBuild calls the real buildUDPHeader on this relay; the returned slice is handed out as is.
+func (r *UDPRelay) VerifBuild(host string, port int, payload []byte) []byte {
+	return r.buildUDPHeader(host, port, payload)
+}
